@@ -135,6 +135,18 @@ def _check_parts(leaf, parts, start, ctx, w):
             ctx.violation('part_start_pos', '%s part %r of prefix %r: start_pos %s, true %s' % (p.type, p.value, prefix, p.start_pos, sp), w,
                           bom=BOM in prefix)
             return
+        if p.type != 'spacing' and p.spacing:
+            # the spacing before a part, as a part of its own (what the PEP 8 checker walks): the same text at the same place
+            try:
+                q = p.create_spacing_part()
+                ctx.count('spacing_parts_checked')
+                if q.type != 'spacing' or q.value != p.spacing or q.start_pos != pos or (q.end_pos != sp and '\n' not in p.spacing and '\r' not in p.spacing):
+                    ctx.violation('spacing_part', 'create_spacing_part of %s part %r: %r at %s..%s, the spacing %r stands at %s..%s' % (
+                        p.type, p.value, q.value, q.start_pos, q.end_pos, p.spacing, pos, sp), w, bom=BOM in prefix)
+                    return
+            except Exception as e:
+                ctx.violation('spacing_part', 'create_spacing_part raised %r' % (e,), w)
+                return
         e = sp if p.type == 'bom' else adv(sp, p.value)
         if p.end_pos != e:
             ctx.violation('part_end_pos', '%s part %r of prefix %r: end_pos %s, true %s' % (p.type, p.value, prefix, p.end_pos, e), w,
